@@ -105,7 +105,7 @@ def execute(item):
 
 
 KQ = ("NL", "CE", "J", "PPO")
-KT = KQ + ('W3', 'WT', 'CO', 'UP')
+KT = KQ + ('W3', 'UP')
 
 
 def items(tier):
